@@ -1,8 +1,8 @@
 #!/verif/.venv/bin/python
 # Replay of a solver counterexample against the unmodified code (no shims).
-# property=C16 kernel=values label=k2:samples_computable
+# property=C16 kernel=phase_fp label=k4:fp_phase_below_2pi
 import sys
 sys.path[:0] = ['/repo' + "/pulser-core", '/repo' + "/pulser-simulation", "/verif"]
 from symx.replay import replay
-sys.exit(replay(check='checks.c16', kernel='values', shape={'cls': 'interp', 'dur': 21, 'values': [0.0, 2.0, 1.0], 'kw': {'times': [0.0, 1.0, 0.5], 'interpolator': 'interp1d'}},
-                assignment={}, label='k2:samples_computable'))
+sys.exit(replay(check='checks.c16', kernel='phase_fp', shape={},
+                assignment={'x_bits': 13596367275039916032}, label='k4:fp_phase_below_2pi'))
